@@ -374,7 +374,8 @@ def gen_codec_inputs(tier: str, rng: random.Random) -> list[tuple[str, dict]]:
     out.append(("zon", X.zon_sched("00", [[("00:00", 5), ("23:55", 35)]])))
     out.append(("zon", X.zon_sched("0B", [[("00:00", 5.0)], [("00:05", 35.0), ("12:00", 20.01), ("23:55", 19.99)]])))
     # (4b) the small end of the size dimension: the same single switch-point on every day of the week - what compresses
-    #      best (hot water: 37 bytes = ONE fragment; a zone: 42 bytes = two); every time of day (thorough) / every hour
+    #      best (hot water: 30-37 bytes = ONE fragment; a zone: 39-41 bytes = one, or two); every time of day (thorough) /
+    #      every hour
     for start in range(0, 288, 1 if tier == "thorough" else 12):
         t = times_cycle(start, 1)
         out.append(("dhw", X.dhw_sched([[(t[0], bool(start % 2))]])))
@@ -585,6 +586,7 @@ def main(tier: str, replay: str | None) -> None:
             "a payload set decompresses only if it holds all fragments of one version in place (zlib checksum) - tested on the real packets, not proved",
             "0404 packets are dispatched by the harness to the Schedule of the zone they name; a sample of the histories is replayed as a packet log by a whole real Gateway and must show the same final schedules",
             "EMPTY_PAYLOAD_SET (module-level, mutated by the code under test) is reset by the harness before every history",
+            "fetch: the controller answers every RQ|0404 for a fragment it has with that fragment (total = its set's size) and RQ|0006 with a counter that has gone up since the zone's last fetch; a request for a fragment beyond its set goes unanswered (the send fails); nobody else holds the schedule lock, nothing is overheard during the call (C18)",
             "the 'no schedule' reply (RP 0404 007 ..01FF) cannot be delivered: the repository's payload regex rejects it",
             "codec: N <= 6 switch-points a day; set-point grid complete; 288 times complete; other dimensions systematic/seeded samples",
         ],
